@@ -78,6 +78,32 @@ def _is_flags(node):
     return isinstance(node, ast.Constant)
 
 
+def _close_over(expr, known):
+    """expr with the bare names of already accepted constants replaced by their values and len(<literal>) folded; None when a name
+    stays open (class-body constants may refer to earlier ones: _TRAILER_LEN = len(_HEADER) + _DIGEST_LEN)."""
+    if not isinstance(expr, ast.AST) or not known:
+        return None
+
+    class R(ast.NodeTransformer):
+        def visit_Name(self, node):
+            if isinstance(node.ctx, ast.Load) and node.id in known:
+                return copy.deepcopy(known[node.id])
+            return node
+
+        def visit_Call(self, node):
+            self.generic_visit(node)
+            if _dotted(node.func) == 'len' and len(node.args) == 1 and not node.keywords and isinstance(node.args[0], ast.Constant) and \
+                    isinstance(node.args[0].value, (bytes, str)):
+                return ast.copy_location(ast.Constant(value=len(node.args[0].value)), node)
+            return node
+    out = R().visit(copy.deepcopy(expr))
+    if any(isinstance(n, ast.Name) and n.id not in ('True', 'False', 'None') and not n.id[:1].isupper() for n in ast.walk(out)):
+        return None
+    if any(isinstance(n, ast.Call) and _dotted(n.func) == 'len' for n in ast.walk(out)):
+        return None
+    return ast.fix_missing_locations(out)
+
+
 def is_simple(node):
     """Cheap, side-effect free, safe to duplicate: names, constants, attribute chains, constant subscripts."""
     if isinstance(node, (ast.Name, ast.Constant)):
@@ -441,7 +467,11 @@ class Canon(object):
                                 counts[n.id] = counts.get(n.id, 0) + 1
             d = {}
             for name, v in m.assigns.items():
-                if name not in VOCAB_NAMES and counts.get(name) == 1 and is_pure_literal(v) and not (name.startswith('__') and name.endswith('__')):
+                if name in VOCAB_NAMES or counts.get(name) != 1 or (name.startswith('__') and name.endswith('__')):
+                    continue
+                if not is_pure_literal(v):
+                    v = _close_over(v, d)
+                if v is not None and is_pure_literal(v):
                     d[name] = v
             self.mod_consts[m.name] = d
             for c in m.classes.values():
@@ -454,8 +484,11 @@ class Canon(object):
                                 counts[t.id] = counts.get(t.id, 0) + 1
                 is_class = lambda n, _m=m: hasattr(self.prog.lookup(_m, n), 'mro')     # noqa: E731
                 for name, v in c.attrs.items():
-                    if name not in VOCAB_NAMES and counts.get(name, 1) == 1 and is_pure_literal(v, 0, is_class) and name not in stored_attrs and \
-                            not (name.startswith('__') and name.endswith('__')):
+                    if name in VOCAB_NAMES or counts.get(name, 1) != 1 or name in stored_attrs or (name.startswith('__') and name.endswith('__')):
+                        continue
+                    if not is_pure_literal(v, 0, is_class):
+                        v = _close_over(v, cc)       # NAME2 = len(NAME1) + 20: a constant written with earlier new constants
+                    if v is not None and is_pure_literal(v, 0, is_class):
                         cc[name] = v
                 self.cls_consts[c.key] = cc
 
